@@ -386,6 +386,7 @@ pub fn worker_miri(args: &[String]) -> i32 {
     let n: u64 = args.get(1).and_then(|s| s.parse().ok()).unwrap_or(50);
     let dir = args.get(2).cloned().unwrap_or_default();
     let out = args.get(3).cloned().unwrap_or_default();
+    let label = args.get(4).cloned().unwrap_or_else(|| "miri".to_string());
     let codes = [["de", "it", "nl"][(seed % 3) as usize], ["en", "fr", "es", "pt"][(seed / 3 % 4) as usize]];
     let apis = [crate::api::concrete(codes[0]), crate::api::concrete(codes[1])];
     let mut rng = Rng::derive(seed, "C03-miri", 0);
@@ -401,7 +402,7 @@ pub fn worker_miri(args: &[String]) -> i32 {
         let _ = std::fs::write(format!("{}/crumb-0.json", dir), j.to_string());
         let res = catch_unwind(AssertUnwindSafe(|| exercise(apis[which].as_ref(), &s, t, bits)));
         rep.eval(hash_bytes(&[code.as_bytes(), s.as_bytes(), &t.to_bits().to_le_bytes()]), true);
-        rep.count(&format!("miri_cases_{}", code));
+        rep.count(&format!("{}_cases_{}", label, code));
         match res {
             Ok(None) => {}
             Ok(Some(msg)) => rep.violation(&format!("semantic:{}", code), jobj! {"kind" => "case", "lang" => code, "threshold" => format!("{}", t), "input" => input.to_json(), "bits" => bits as i64}, format!("[{} t={}] {}", code, t, msg)),
@@ -605,6 +606,72 @@ fn miri_slices(ctx: &Ctx, rep: &mut Report, n_procs: usize, cases_per_proc: u64,
     let _ = std::fs::remove_dir_all(&tmp);
 }
 
+/// valgrind memcheck over the light worker of the release binary: uninitialised reads and invalid accesses inside the
+/// dependencies' unsafe code (the automaton of the de/it/nl splitters) that ASan's red zones do not cover
+fn memcheck_slices(ctx: &Ctx, rep: &mut Report, n_procs: usize, cases_per_proc: u64, timeout_s: u64) {
+    let exe = match std::env::current_exe() {
+        Ok(e) => e,
+        Err(_) => {
+            rep.inconclusive.push("leg=memcheck reason=cannot locate the runner binary".into());
+            return;
+        }
+    };
+    let tmp = format!("{}/harness/target/c03-memcheck-{}", ctx.verif_dir, std::process::id());
+    let _ = std::fs::create_dir_all(&tmp);
+    let handles: Vec<_> = (0..n_procs)
+        .map(|p| {
+            let tmp = tmp.clone();
+            let exe = exe.clone();
+            let seed = ctx.seed.wrapping_add(5000 + p as u64);
+            std::thread::spawn(move || {
+                let pdir = format!("{}/p{}", tmp, p);
+                let _ = std::fs::create_dir_all(&pdir);
+                let result = format!("{}/report.json", pdir);
+                let mut c = Command::new("valgrind");
+                c.args(["-q", "--error-exitcode=97", "--leak-check=no", "--track-origins=no"]);
+                c.arg(&exe);
+                c.args(["worker", "c03-miri", &seed.to_string(), &cases_per_proc.to_string(), &pdir, &result, "memcheck"]);
+                c.env("VERIF_THREADS", "1");
+                let r = run_child(&mut c, timeout_s);
+                (p, pdir, result, r)
+            })
+        })
+        .collect();
+    let mut ok_procs = 0;
+    for h in handles {
+        let (p, pdir, result, r) = match h.join() {
+            Ok(x) => x,
+            Err(_) => continue,
+        };
+        let name = format!("memcheck{}", p);
+        if !r.started {
+            rep.inconclusive.push(format!("leg={} reason=cannot start valgrind", name));
+            continue;
+        }
+        let err = String::from_utf8_lossy(&r.stderr).to_string();
+        let reported = r.exit_code == Some(97) || err.contains("Invalid read") || err.contains("Invalid write") || err.contains("uninitialised");
+        if reported {
+            let crumb = std::fs::read_to_string(format!("{}/crumb-0.json", pdir)).ok().and_then(|s| json::parse(&s).ok()).unwrap_or(J::obj());
+            let mut case = crumb.clone();
+            case.set("kind", "case");
+            case.set("leg", "memcheck");
+            let first: String = err.lines().filter(|l| l.starts_with("==")).take(6).collect::<Vec<_>>().join(" | ");
+            rep.violation(&format!("memcheck:{}", first.chars().filter(|c| !c.is_ascii_digit()).take(80).collect::<String>()), case, format!("[leg memcheck] valgrind reported: {} ; last case started: {}", first, crumb.to_string().chars().take(300).collect::<String>()));
+            continue;
+        }
+        if let Some(j) = std::fs::read_to_string(&result).ok().and_then(|s| json::parse(&s).ok()) {
+            legs::merge_child_json(rep, "memcheck", &j);
+            ok_procs += 1;
+        } else if r.timed_out {
+            rep.inconclusive.push(format!("leg={} reason=outer watchdog of {} s fired", name, timeout_s));
+        } else {
+            rep.inconclusive.push(format!("leg={} reason=no report ({})", name, crash_description(&r)));
+        }
+    }
+    rep.add("leg_memcheck_processes_completed", ok_procs);
+    let _ = std::fs::remove_dir_all(&tmp);
+}
+
 pub fn run(ctx: &Ctx) -> Outcome {
     let mut rep = Report::new();
     let q = ctx.quick();
@@ -614,6 +681,7 @@ pub fn run(ctx: &Ctx) -> Outcome {
         run_leg(ctx, &mut rep, &LegSpec { name: "asan", env_var: Some("T2N_LEG_ASAN"), n_cases: ctx.n(0, 1_000_000), big: true, big_max: 50_000, timeout_s: 400 });
         miri_slices(ctx, &mut rep, 16, 150, 900);
     }
+    memcheck_slices(ctx, &mut rep, if q { 4 } else { 16 }, if q { 1500 } else { 20_000 }, if q { 120 } else { 600 });
     if !q {
         legs::fuzz_leg(ctx, &mut rep, 60);
     }
@@ -622,7 +690,7 @@ pub fn run(ctx: &Ctx) -> Outcome {
         rep.harness_errors.push("the release leg produced no report".into());
     }
     rep.sample(jobj! {"degenerate_inputs_always_included" => J::Arr(DEGENERATE.iter().take(12).map(|s| J::from(*s)).collect()), "big_classes" => J::Arr(BIG_CLASSES.iter().map(|s| J::from(*s)).collect())});
-    let rule = "cases = (language, input text, threshold in {0,10,5.5,-1,+inf,-inf,NaN,1e300}); inputs: hostile text 55%, degenerate strings (empty, whitespace-only, hyphen-only, NUL, combining marks...) 10%, random bytes decoded lossily 8%, vocabulary glued with - and ' 8%, linking sentences 10%, number-free scripts 6%, large inputs 3% (up to 10^5 words / 10^5-part hyphen chains / 10^5-char compounds for the de/it/nl splitter); every case calls text2digits, replace_numbers_in_text, find_numbers, find_numbers_iter to exhaustion and twice beyond, replace_numbers_in_stream and basic_annotate on caller tokens with hints and a non-lower-case lowercase copy, get_interpreter_for; additionally text without a letter or digit must not validate; each leg (release, debug profile, ASan, Miri slices) runs in child processes so that aborts, signals, sanitizer reports and non-returning calls are observed; distinct = distinct (language, input, threshold) hashes summed over the legs";
+    let rule = "cases = (language, input text, threshold in {0,10,5.5,-1,+inf,-inf,NaN,1e300}); inputs: hostile text 55%, degenerate strings (empty, whitespace-only, hyphen-only, NUL, combining marks...) 10%, random bytes decoded lossily 8%, vocabulary glued with - and ' 8%, linking sentences 10%, number-free scripts 6%, large inputs 3% (up to 10^5 words / 10^5-part hyphen chains / 10^5-char compounds for the de/it/nl splitter); every case calls text2digits, replace_numbers_in_text, find_numbers, find_numbers_iter to exhaustion and twice beyond, replace_numbers_in_stream and basic_annotate on caller tokens with hints and a non-lower-case lowercase copy, get_interpreter_for; additionally text without a letter or digit must not validate; each leg (release, debug profile, valgrind memcheck slices of small cases, and in the thorough tier ASan and Miri slices) runs in child processes so that aborts, signals, sanitizer reports and non-returning calls are observed; distinct = distinct (language, input, threshold) hashes summed over the legs";
     finish(
         ctx,
         rep,
